@@ -14,7 +14,7 @@ use crate::tape::Tape;
 use serde_json::{json, Value};
 use std::collections::BTreeSet;
 
-fn pool(t: &mut Tape) -> Vec<String> {
+fn pool(t: &mut Tape) -> (Vec<String>, Vec<Option<usize>>) {
     let mut v: Vec<String> = tree::POOL.iter().map(|s| s.to_string()).collect();
     // files that share state-variable names / differ in version and SafeMath usage
     v.push("pragma solidity 0.7.0 ;\nusing SafeMath for uint256 ;\ncontract P { uint256 total ; address owner ; function f ( uint256 a ) public { total = a . add ( 1 ) ; require ( a > 0 , \"a message that is longer than thirty-two bytes in total\" ) ; } }\n".into());
@@ -26,7 +26,28 @@ fn pool(t: &mut Tape) -> Vec<String> {
             v.push(p);
         }
     }
-    v
+    // equal-length twins: same byte length, different content and (mostly) different findings —
+    // anything that identifies a file by less than its content confuses a file with its twin
+    let subs: &[(&str, &str)] = &[
+        ("* 2", "* 3"), (" >= ", " == "), (" <= ", " != "), ("transfer", "transfEr"), ("keccak256", "keccak257"), ("== true", "== trve"), ("address ( 0 )", "address ( 1 )"),
+        ("require (", "reqvire ("), ("selfdestruct", "selfdestrvct"), (". add (", ". adx ("), ("/ 4", "/ 5"), ("0.8.4", "0.8.3"), ("0.7.6", "0.8.6"), ("^0.8", "=0.8"),
+    ];
+    let n = v.len();
+    let mut twin_of: Vec<Option<usize>> = vec![None; n];
+    for i in 0..n {
+        let mut twin = v[i].clone();
+        for (a, b) in subs {
+            if a.len() == b.len() {
+                twin = twin.replace(a, b);
+            }
+        }
+        if twin != v[i] && twin.len() == v[i].len() && crate::parse(&twin).is_some() {
+            twin_of[i] = Some(v.len());
+            twin_of.push(Some(i));
+            v.push(twin);
+        }
+    }
+    (v, twin_of)
 }
 
 fn baseline(files: &[String], pats: &[P]) -> Result<Vec<Vec<BTreeSet<i32>>>, String> {
@@ -43,7 +64,7 @@ fn baseline(files: &[String], pats: &[P]) -> Result<Vec<Vec<BTreeSet<i32>>>, Str
 
 fn history_case(tape: &[u8], st: &mut Stats) -> Vec<Violation> {
     let mut t = Tape::new(tape);
-    let files = pool(&mut t);
+    let (files, twin_of) = pool(&mut t);
     let pats = patterns::all();
     let base = match baseline(&files, &pats) {
         Ok(b) => b,
@@ -52,6 +73,7 @@ fn history_case(tape: &[u8], st: &mut Stats) -> Vec<Violation> {
             return vec![];
         }
     };
+    st.add("equal_length_twin_files_in_pool", twin_of.iter().filter(|x| x.is_some()).count() as u64 / 2);
     let n_ops = t.range(3, 14);
     let mut log: Vec<Value> = Vec::new();
     let mut repetitions = 0;
@@ -79,23 +101,49 @@ fn history_case(tape: &[u8], st: &mut Stats) -> Vec<Violation> {
                         let sig = if file_no != 0 { "depends-on-file-number-or-history" } else { "depends-on-history" };
                         return vec![Violation::new("history", format!("{sig}:{}", pats[pi].name), format!("{} on file {} gives {:?} inside the history, {:?} on its own", pats[pi].name, fi, got, base[fi][pi]), json!({"ops": log, "files": files}))];
                     }
+                    // the equal-length twin right afterwards, same pattern, same file number
+                    if let Some(tw) = twin_of[fi] {
+                        st.evaluations += 1;
+                        st.count("twin_calls_right_after_the_original");
+                        log.push(json!({"op": "analyze_for", "file": tw, "pattern": pats[pi].name, "file_number": file_no, "twin_of": fi}));
+                        match catch(|| pats[pi].analyze(&files[tw], file_no)) {
+                            Ok(g) => {
+                                if g != base[tw][pi] {
+                                    return vec![Violation::new("history", format!("depends-on-previous-file:{}", pats[pi].name), format!("{} on file {} right after its equal-length twin {} gives {:?}, {:?} on its own", pats[pi].name, tw, fi, g, base[tw][pi]), json!({"ops": log, "files": files}))];
+                                }
+                            }
+                            Err(site) => return vec![Violation::new("history", format!("panic-in-history:{site}"), "a call that succeeds alone panics inside a history", json!({"ops": log}))],
+                        }
+                    }
                 }
             }
             _ => {
                 // directory call: the probe file among varying siblings / positions / pattern selections
                 let k = t.range(1, 4);
+                let names = ["A.sol", "B.sol", "Token.sol", "Vault.sol"];
                 let mut entries: Vec<Entry> = Vec::new();
                 let mut used = Vec::new();
+                let mut flat: Vec<(String, usize)> = Vec::new();
                 for j in 0..k {
                     let fi = t.below(files.len());
                     distinct_files.insert(fi);
                     used.push(fi);
-                    entries.push(Entry { name: format!("f{j}_{fi}.sol"), kind: Kind::File(files[fi].clone().into_bytes()), class: "eligible" });
+                    let name = names[j % names.len()].to_string();
+                    flat.push((name.clone(), fi));
+                    entries.push(Entry { name, kind: Kind::File(files[fi].clone().into_bytes()), class: "eligible" });
                 }
-                if t.chance(100) {
-                    let fi = t.below(files.len());
-                    used.push(fi);
-                    entries.push(Entry { name: "sub".into(), kind: Kind::Dir(vec![Entry { name: format!("n_{fi}.sol"), kind: Kind::File(files[fi].clone().into_bytes()), class: "eligible" }]), class: "directory" });
+                if t.chance(140) {
+                    // a sub-directory whose files reuse the base names of the parent's files
+                    let m = t.range(1, 3);
+                    let mut sub = Vec::new();
+                    for j in 0..m {
+                        let fi = t.below(files.len());
+                        used.push(fi);
+                        let name = names[j % names.len()].to_string();
+                        flat.push((name.clone(), fi));
+                        sub.push(Entry { name, kind: Kind::File(files[fi].clone().into_bytes()), class: "eligible" });
+                    }
+                    entries.push(Entry { name: "sub".into(), kind: Kind::Dir(sub), class: "directory" });
                 }
                 let perm = t.permutation(entries.len());
                 let entries: Vec<Entry> = perm.into_iter().map(|i| entries[i].clone()).collect();
@@ -111,28 +159,26 @@ fn history_case(tape: &[u8], st: &mut Stats) -> Vec<Violation> {
                     Ok(g) => g,
                     Err(site) => return vec![Violation::new("history", format!("panic-in-history:{site}"), "analyze_dir panics inside a history", json!({"ops": log}))],
                 };
-                // every entry must equal the baseline of its file and pattern
-                let mut flat: Vec<(String, usize)> = Vec::new();
-                fn collect(es: &[Entry], out: &mut Vec<(String, usize)>) {
-                    for e in es {
-                        match &e.kind {
-                            Kind::File(_) => {
-                                let fi: usize = e.name.trim_end_matches(".sol").rsplit('_').next().and_then(|x| x.parse().ok()).unwrap_or(0);
-                                out.push((e.name.clone(), fi));
-                            }
-                            Kind::Dir(c) => collect(c, out),
-                        }
-                    }
-                }
-                collect(&entries, &mut flat);
-                for (name, fi) in &flat {
+                // per (pattern, file name): the multiset of line sets must equal the baselines of the files of that name
+                let mut names_seen: Vec<&String> = flat.iter().map(|(n, _)| n).collect();
+                names_seen.sort();
+                names_seen.dedup();
+                for name in names_seen {
                     for p in &sel {
                         let pi = pats.iter().position(|q| q.name == p.name).unwrap();
-                        let expected = &base[*fi][pi];
-                        let found: Vec<_> = got.iter().filter(|((pn, fname, _), _)| pn == p.name && fname == name).collect();
-                        let ok = if expected.is_empty() { found.is_empty() } else { found.len() == 1 && found[0].0 .2 == expected.iter().copied().collect::<Vec<_>>() && *found[0].1 == 1 };
-                        if !ok {
-                            return vec![Violation::new("history", format!("directory-entry-differs-from-single-call:{}", p.name), format!("{} for {} inside a directory run gives {:?}, alone {:?}", p.name, name, found, expected), json!({"ops": log, "files": files}))];
+                        let mut expected: Vec<Vec<i32>> = flat.iter().filter(|(n, _)| n == name).map(|(_, fi)| base[*fi][pi].iter().copied().collect::<Vec<i32>>()).filter(|l| !l.is_empty()).collect();
+                        expected.sort();
+                        let mut found: Vec<Vec<i32>> = Vec::new();
+                        for ((pn, fname, lines), mult) in got.iter() {
+                            if pn == p.name && fname == name {
+                                for _ in 0..*mult {
+                                    found.push(lines.clone());
+                                }
+                            }
+                        }
+                        found.sort();
+                        if found != expected {
+                            return vec![Violation::new("history", format!("directory-entry-differs-from-single-call:{}", p.name), format!("{} for files named {} inside a directory run gives {:?}, the files analysed alone give {:?}", p.name, name, found, expected), json!({"ops": log, "files": files}))];
                         }
                     }
                 }
@@ -149,7 +195,7 @@ fn history_case(tape: &[u8], st: &mut Stats) -> Vec<Violation> {
 fn concurrent_phase(env: &Env, st: &mut Stats) {
     let bytes: Vec<u8> = (0..400u64).map(|i| (fnv(&(env.seed, i)) >> 9) as u8).collect();
     let mut t = Tape::new(&bytes);
-    let files = pool(&mut t);
+    let (files, _) = pool(&mut t);
     let pats = patterns::all();
     let base = match baseline(&files, &pats) {
         Ok(b) => b,
